@@ -207,12 +207,15 @@ func specs19(thorough bool) []spec19 {
 	add(6, blockSize-19, 10, 20, 30)            // block 0 filled exactly by one chunk
 	add(6, 10, 33000, 20, 30)                   // record > 32 KiB spanning blocks 0 and 1
 	add(6, 33000, 10, 20, 30)
+	add(6, blockSize-19-30, 10, 20, 5) // 11 bytes left in block 0: zero padding
+	add(6, blockSize-19-48, 10, 20, 5) // 19 bytes left after the second record: an empty chunk fits
 	if thorough {
 		add(6, 10, 20, 33000, 30, 5)
-		add(6, blockSize-19-30, 10, 20, 5) // 11 bytes left in block 0: zero padding
-		add(6, blockSize-19-48, 10, 20, 5) // 19 bytes left after the second record: an empty chunk fits
 		add(0x7f, 10, 33000, 20, 30)
 		add(6, 10, 2*blockSize+3, 20, 30)
+		for _, k := range []int{20, 29, 37, 38, 39, 49, 77, 100, 200} {
+			add(6, blockSize-19-k, 10, 20, 5)
+		}
 	}
 	return out
 }
@@ -261,23 +264,6 @@ func writerChecks19(c *vlib.Ctx, l *logImg, cs Case) (under int) {
 }
 
 func replay19(c *vlib.Ctx, cs Case) {
-	l, err := writeLog(fWALSync, cs.LogNum, cs.LogNum, cs.Sizes)
-	if err != nil {
-		fmt.Println("writer:", err)
-		c.Violation("writer-error", err.Error(), cs)
-		return
-	}
-	fmt.Printf("log: %s, last recorded synced offset %d\n", l, lastSynced(l))
-	for _, ch := range l.Chunks {
-		fmt.Println("  ", ch)
-	}
-	if cs.ImgHash != 0 && cs.ImgHash != vlib.Hash(l.Data) {
-		fmt.Println("note: the regenerated log differs from the one of the original run (synced-offset fields depend on flush timing for records that fill whole blocks)")
-	}
-	if cs.Kind == "writer" {
-		writerChecks19(c, l, cs)
-		return
-	}
 	if strings.HasPrefix(cs.Kind, "db:") {
 		fx, err := buildDBFixture()
 		if err != nil {
@@ -294,6 +280,23 @@ func replay19(c *vlib.Ctx, cs Case) {
 		if class != "" {
 			c.Violation(class, desc, cs)
 		}
+		return
+	}
+	l, err := writeLog(fWALSync, cs.LogNum, cs.LogNum, cs.Sizes)
+	if err != nil {
+		fmt.Println("writer:", err)
+		c.Violation("writer-error", err.Error(), cs)
+		return
+	}
+	fmt.Printf("log: %s, last recorded synced offset %d\n", l, lastSynced(l))
+	for _, ch := range l.Chunks {
+		fmt.Println("  ", ch)
+	}
+	if cs.ImgHash != 0 && cs.ImgHash != vlib.Hash(l.Data) {
+		fmt.Println("note: the regenerated log differs from the one of the original run (synced-offset fields depend on flush timing for records that fill whole blocks)")
+	}
+	if cs.Kind == "writer" {
+		writerChecks19(c, l, cs)
 		return
 	}
 	fmt.Printf("damage: %s at offset %d\n", cs.Kind, cs.Off)
@@ -352,6 +355,8 @@ func check19(c *vlib.Ctx) {
 	}
 	c.Note("multi_block_logs", map[string]any{"logs": multi, "logs_with_promise_below_synced": under, "layout": layout,
 		"remark": "LogWriter.flushLoop adds only the partially flushed part of the current block to the synced offset; bytes that reach the file as queued full blocks are not counted, so promises fall behind the real synced length once the log leaves its first block. Conservative (never an over-promise); the oracle uses the promises found in the headers."})
+	// DB level first (a few hundred Opens): its violations then own the replay artefacts of the classes.
+	dbStage19(c)
 	done, complete := c.Each(len(cases), func(i int) {
 		cs := cases[i]
 		l := logs[cs.log]
@@ -376,8 +381,6 @@ func check19(c *vlib.Ctx) {
 	})
 	if !complete {
 		c.Incomplete(fmt.Sprintf("budget expired after %d of %d (log, offset, pattern) cases", done, len(cases)))
-	} else {
-		dbStage19(c)
 	}
 	var names []string
 	for _, sp := range specs {
